@@ -479,9 +479,13 @@ Definition serve_clauses (s : srt) (o : line) (r : list bytes) : list bytes :=
 Definition routes_clauses (s : srt) (r : list bytes) : list bytes :=
   if obs_is r "panic" then [cl "C05:routes-panics"] else
   if unsup s || ahas (bs "*") (live s) then [] else
+  (* judged on tables of well-formed patterns (one node per pattern is a theorem only there:
+     C03_pattern_once_reachable / C03_pattern_once_refuted; Routes() is a map keyed by pattern) *)
+  match live_toks s with None => [] | Some _ =>
   let spec := flat_map (fun kv => [fst kv; join comma (snd kv)]) (spec_routes (c_trace (tc s)) (live s)) in
   check (lines_eqb r spec) "C03:routes-differs-from-live-table" ++
-  check (lines_eqb r spec) "C04:routes-method-sets".
+  check (lines_eqb r spec) "C04:routes-method-sets"
+  end.
 
 (* the four documented syntax errors vs. everything else that does not tokenise *)
 Inductive pclass := PWf (ts : list tok) | PMalformed | POther | PUnsupported.
@@ -750,8 +754,13 @@ Definition script_clauses (s : srt) (o : line) (r : list bytes) : list bytes :=
   (let total := fold_right (fun e a => match e with EWrite n => n + a | _ => a end) 0 script in
    let has_write := existsb (fun e => match e with EWrite _ => true | _ => false end) script in
    let explicit := existsb (fun e => match e with EWriteHeader _ => true | _ => false end) script in
-   if has_write && negb explicit &&
-      negb (existsb (fun e => match e with ESet k _ | EAdd k _ | EDel k => beqb k content_length | _ => false end) script)
+   (* the script may set or delete Content-Length itself BETWEEN writes: the last write decides *)
+   let touched_after_last_write :=
+     fold_left (fun flag e => match e with
+                              | EWrite _ => false
+                              | ESet k _ | EAdd k _ | EDel k => flag || beqb k content_length
+                              | _ => flag end) script false in
+   if has_write && negb explicit && negb touched_after_last_write
    then check (beqb (opt_default [] (alookup content_length hh)) (N_to_dec total)) "C08:head-content-length"
    else []).
 
